@@ -195,7 +195,7 @@ check("C20", level="model_checking", engine="nx",
       note=NX_NOTE + " Command output is delivered whole at completion (output arriving in pieces through real pipes is not covered). "
            "Every schedule and fault set runs with piped output and, through an isatty/TIOCGWINSZ seam, with stdout as a 50-column "
            "terminal; there the oracle rebuilds the screen (CR, LF, erase-line, control sequences) and requires every finished "
-           "command's output to be visible whole."", design_ref="5/C20")
+           "command's output to be visible whole.", design_ref="5/C20")
 
 check("C12", level="model_checking", engine="ix",
       technique="bounded-exhaustive program families evaluated by an independent reference evaluator of the manifest language and by the real ManifestParser; canonical graph comparison",
